@@ -14,6 +14,8 @@ section, same runner) with the three parts of `TaskDispatcher._add_task` that fi
   returns False with `run_status = 'run'` (no start), the node is handed back, the generator makes the nodes of the
   setup-tasks, waits for them (`wait_run`), and yields the task again; the second `select_task` re-checks `bad_deps`;
   the `wait_select` branch (`run_status is None` after the first yield) is mirrored as well;
+* **wildcard task_dep of a created task** (repair 71e546b) — expanded against `list(self.tasks)` right after the batch is
+  registered (`Sys.order`, `wildDeps`; `fnmatch` is the oracle `Input.wmatch`);
 * **getargs** — `Task._init_getargs` + `result_dep(setup_dep=True)`: the source is appended to `setup_tasks` (the
   harness builds `TDef.setup` that way); its effect on up-to-date-ness is part of the oracle `inp.utd`.
 
@@ -65,6 +67,7 @@ structure Sys where
   gfound : GId → Bool
   gtasks : GId → List Name
   nextOid : Nat
+  order : List Name                  -- `list(self.tasks)`: the keys of the task table in insertion order
   nodes : Name → Option Node
   ready : List Name
   waiting : List Name
@@ -79,7 +82,7 @@ structure Sys where
 
 def init (inp : Input) : Sys :=
   { tasks := lookup0 inp.tasks0, targets := lookup0 inp.targets0, created := fun _ => false, evaluated := [],
-    gfound := fun _ => false, gtasks := inp.gtasks0, nextOid := 1000,
+    gfound := fun _ => false, gtasks := inp.gtasks0, nextOid := 1000, order := inp.tasks0.map Prod.fst,
     nodes := fun _ => none, ready := [], waiting := [], toRun := inp.sel, dispatched := [], cur := none,
     susp := .running, running := [], stop := false, final := 0, events := [] }
 
@@ -207,13 +210,34 @@ def mustCreate (inp : Input) (s : Sys) (l : LId) (tT : TDef) : Bool :=
    | some l' => !s.created l'
    | none => false) && (inp.pinnedOnce || !s.evaluated.contains (inp.creatorOf l))
 
+/-- keys of the table after `for nt in new_tasks: self.tasks[nt.name] = nt` (a re-assigned key keeps its place) -/
+def orderAfter : List Name → List NewTask → List Name
+  | order, [] => order
+  | order, nt :: r => orderAfter (if nt.name ∈ order then order else order ++ [nt.name]) r
+
+/-- the wildcard block (repair 71e546b): `nt.task_dep.extend(name for name in list(self.tasks) if fnmatch(name, pattern))`
+    for every pattern of `nt.wild_dep`, over the table with the whole batch registered; no de-duplication -/
+def wildDeps (inp : Input) (order : List Name) (nt : NewTask) : List Name :=
+  nt.wild.flatMap fun p => order.filter (inp.wmatch p)
+
+def insertNewW (inp : Input) (order : List Name) (targets : Name → Option Name) :
+    Nat → (Name → Option TDef) → List NewTask → (Name → Option TDef)
+  | _, tasks, [] => tasks
+  | oid, tasks, nt :: r =>
+    insertNewW inp order targets (oid + 1)
+      (fun k => if k = nt.name then
+                  some { newDef targets oid nt with deps := (newDef targets oid nt).deps ++ wildDeps inp order nt }
+                else tasks k) r
+
 def evalCreator (inp : Input) (s : Sys) (l : LId) (tname : Name) : Sys :=
   match regTargets s.targets (targetPairs (inp.make (inp.creatorOf l) tname)) with
   | none => { s with susp := .err .dupTarget, evaluated := s.evaluated ++ [inp.creatorOf l],
                      events := Ev.creator (inp.creatorOf l) :: s.events }
   | some tg =>
     { s with targets := tg, evaluated := s.evaluated ++ [inp.creatorOf l],
-             tasks := insertNew tg s.nextOid s.tasks (inp.make (inp.creatorOf l) tname),
+             tasks := insertNewW inp (orderAfter s.order (inp.make (inp.creatorOf l) tname)) tg s.nextOid s.tasks
+                        (inp.make (inp.creatorOf l) tname),
+             order := orderAfter s.order (inp.make (inp.creatorOf l) tname),
              nextOid := s.nextOid + (inp.make (inp.creatorOf l) tname).length,
              events := Ev.creator (inp.creatorOf l) :: s.events }
 
